@@ -85,6 +85,8 @@ pub enum COp {
     DropHandle { h: u16 },
     /// read `total` through handle `h`
     Total { h: u16 },
+    /// `{:?}`-format handle `h` into a writer that fails after `n` bytes
+    DebugFail { h: u16, n: u8 },
 }
 
 #[derive(Clone, Debug, Serialize, Deserialize, PartialEq)]
@@ -197,6 +199,12 @@ fn check_counter_inner(c: &CounterCase) -> CaseResult {
                     handles.remove(i);
                 }
             }
+            COp::DebugFail { h, n } => {
+                use std::fmt::Write;
+                let i = vcore::pick(h, handles.len());
+                let mut wtr = FailingWriter(n as usize % 80);
+                let _ = write!(wtr, "{:?}", &*handles[i]);
+            }
             COp::Total { h } => {
                 let i = vcore::pick(h, handles.len());
                 let got = handles[i].total();
@@ -220,6 +228,19 @@ fn check_counter_inner(c: &CounterCase) -> CaseResult {
     Ok(obs)
 }
 
+/// a `fmt::Write` that accepts `.0` bytes and then fails
+pub struct FailingWriter(pub usize);
+impl std::fmt::Write for FailingWriter {
+    fn write_str(&mut self, s: &str) -> std::fmt::Result {
+        if s.len() > self.0 {
+            self.0 = 0;
+            return Err(std::fmt::Error);
+        }
+        self.0 -= s.len();
+        Ok(())
+    }
+}
+
 // ---- LocalWaker --------------------------------------------------------------------------------
 
 #[derive(Clone, Copy, Debug, Serialize, Deserialize, PartialEq)]
@@ -230,6 +251,9 @@ pub enum WOp {
     TakeWake,
     /// `take()` and drop it
     TakeDrop,
+    /// `{:?}`-format the LocalWaker into a writer that fails after `n` bytes (a bounded log line):
+    /// looking at it must not change it
+    DebugFail(u8),
 }
 
 #[derive(Clone, Debug, Serialize, Deserialize, PartialEq)]
@@ -268,6 +292,13 @@ fn check_waker_inner(c: &WakerCase) -> CaseResult {
                     want[w] += 1;
                     woke_registered = true;
                 }
+            }
+            WOp::DebugFail(n) => {
+                use std::fmt::Write;
+                let mut wtr = FailingWriter(n as usize % 40);
+                let _ = write!(wtr, "{:?}", lw);
+                let mut full = String::new();
+                let _ = write!(full, "{:?}", lw);
             }
             WOp::TakeWake | WOp::TakeDrop => {
                 let t = lw.take();
@@ -308,7 +339,7 @@ const C_ALPHA: [COp; 8] = [
     COp::CloneHandle { h: 0 },
     COp::DropHandle { h: 0 },
 ];
-const W_ALPHA: [WOp; 5] = [WOp::Register(0), WOp::Register(1), WOp::Wake, WOp::TakeWake, WOp::TakeDrop];
+const W_ALPHA: [WOp; 7] = [WOp::Register(0), WOp::Register(1), WOp::Wake, WOp::TakeWake, WOp::TakeDrop, WOp::DebugFail(0), WOp::DebugFail(14)];
 
 fn cop() -> impl Strategy<Value = COp> {
     prop_oneof![
@@ -318,6 +349,7 @@ fn cop() -> impl Strategy<Value = COp> {
         1 => any::<u16>().prop_map(|h| COp::CloneHandle { h }),
         1 => any::<u16>().prop_map(|h| COp::DropHandle { h }),
         1 => any::<u16>().prop_map(|h| COp::Total { h }),
+        1 => (any::<u16>(), any::<u8>()).prop_map(|(h, n)| COp::DebugFail { h, n }),
     ]
 }
 
@@ -345,8 +377,8 @@ pub fn counter_case_from_bytes(data: &[u8]) -> CounterCase {
     CounterCase { capacity, ops }
 }
 
-const RULE_C: &str = "operation sequences over {acquire guard, drop a live guard, available(waker 0|1|a re-entrant waker that asks the counter again from inside its wake-up), clone/drop a counter handle, total} applied to actix_utils::counter::Counter and to a reference model (live count; most recent 'unavailable' waker must be woken by the very drop that takes the count from capacity to capacity-1, and a task that asks again from inside that wake-up is answered 'available' with the new total; extra wake-ups allowed); non-trivial = the count reached the capacity and a guard was dropped afterwards; distinct by (capacity, ops)";
-const RULE_W: &str = "operation sequences over {register(w0|w1), wake, take+wake, take+drop} on LocalWaker vs a model (register returns whether one was registered; wake wakes the most recently registered waker exactly once); non-trivial = both wakers used and a registered waker was woken";
+const RULE_C: &str = "operation sequences over {acquire guard, drop a live guard, available(waker 0|1|a re-entrant waker that asks the counter again from inside its wake-up), clone/drop a counter handle, total, Debug-format a handle into a writer that fails after n bytes} applied to actix_utils::counter::Counter and to a reference model (live count; most recent 'unavailable' waker must be woken by the very drop that takes the count from capacity to capacity-1, and a task that asks again from inside that wake-up is answered 'available' with the new total; extra wake-ups allowed); non-trivial = the count reached the capacity and a guard was dropped afterwards; distinct by (capacity, ops)";
+const RULE_W: &str = "operation sequences over {register(w0|w1), wake, take+wake, take+drop, Debug-format into a writer that fails at once or after 14 bytes} on LocalWaker vs a model (register returns whether one was registered; wake wakes the most recently registered waker exactly once); non-trivial = both wakers used and a registered waker was woken";
 
 pub fn run(ctx: &Ctx) {
     ctx.assume("wake-ups are observed with counting wakers; for Counter extra wake-ups are accepted (the property only forbids lost ones), for LocalWaker counts must match exactly");
